@@ -394,6 +394,7 @@ class CondVal(object):
     def __init__(self, lock):
         self.lock = lock
         self.notified = 0
+        self.notified_all = 0     # notify_all() calls: every waiter is woken, not just one
         self.waits = 0
 
 
